@@ -81,6 +81,9 @@ public:
 
     void discard(unsigned long long n) { pos_ += n; }
 
+    // "seeding" repositions the stream (the outputs are owned by the harness)
+    void seed(std::uint64_t s = 0) { pos_ = 1000 * s; }
+
     std::uint64_t position() const { return pos_; }
 
     friend bool operator==(script_engine const& a, script_engine const& b) { return a.pos_ == b.pos_; }
